@@ -62,11 +62,11 @@ theorem find?_modify : ∀ (t : SymTab) (k k' : SymKey) (f : Symbol → Symbol),
         rw [if_neg this]
       · rw [if_neg h1, if_neg h1]
 
-theorem TRel.keyOf {D : SymKey → Prop} {t1 t2 : SymTab} (h : TRel D t1 t2) (scope n : String) :
+theorem keyOf_congr {t1 t2 : SymTab} (hdom : ∀ k, (t1.find? k).isSome = (t2.find? k).isSome) (scope n : String) :
     t1.keyOf scope n = t2.keyOf scope n := by
   unfold SymTab.keyOf
-  have h1 := h.dom (scope, n)
-  have h2 := h.dom ("", n)
+  have h1 := hdom (scope, n)
+  have h2 := hdom ("", n)
   cases ha : t1.find? (scope, n) with
   | some a =>
     cases hb : t2.find? (scope, n) with
@@ -86,6 +86,9 @@ theorem TRel.keyOf {D : SymKey → Prop} {t1 t2 : SymTab} (h : TRel D t1 t2) (sc
         cases hd : t2.find? ("", n) with
         | some b => rw [hc, hd] at h2; simp at h2
         | none => rfl
+
+theorem TRel.keyOf {D : SymKey → Prop} {t1 t2 : SymTab} (h : TRel D t1 t2) (scope n : String) :
+    t1.keyOf scope n = t2.keyOf scope n := keyOf_congr h.dom scope n
 
 /-- What `lookup` returns in related tables. -/
 theorem TRel.lookup {D : SymKey → Prop} {t1 t2 : SymTab} (h : TRel D t1 t2) (scope n : String) :
@@ -383,5 +386,952 @@ theorem genStmt_rel (hrel : LkRel sc t1 t2) (s : AStmt) :
     rw [ih1, ih2]
 
 end
+
+/-! ### `CreateSymbols` -/
+
+/-- Facts about a table built by `CreateSymbols`: every symbol records its key; a key of a
+    non-global scope belongs to a formal or local of a procedure with that name. -/
+structure TblInv (names : String → List String → Prop) (t : SymTab) : Prop where
+  scope : ∀ k a, t.find? k = some a → a.scope = k.1
+  local_ : ∀ k, (t.find? k).isSome = true → k.1 ≠ "" → ∃ ns, names k.1 ns ∧ k.2 ∈ ns
+
+theorem insert_ok (t : SymTab) (k : SymKey) (s : Symbol) (t' : SymTab) (h : t.insert k s = .ok t') :
+    t.find? k = none ∧ t' = (k, s) :: t := by
+  unfold SymTab.insert at h
+  cases hf : t.find? k with
+  | some x => rw [hf] at h; simp at h
+  | none => rw [hf] at h; simp only [Except.ok.injEq] at h; exact ⟨rfl, h.symm⟩
+
+theorem insert_rel {D : SymKey → Prop} {t1 t2 : SymTab} (h : TRel D t1 t2) (k : SymKey) (s1 s2 : Symbol) (hs : SEq s1 s2)
+    (hD : D k → s1.stackOffset = s2.stackOffset) :
+    (∃ t1' t2', t1.insert k s1 = .ok t1' ∧ t2.insert k s2 = .ok t2' ∧ TRel D t1' t2') ∨
+    (∃ e, t1.insert k s1 = .error e ∧ t2.insert k s2 = .error e) := by
+  unfold SymTab.insert
+  have hd := h.dom k
+  cases h1 : t1.find? k with
+  | some a =>
+    cases h2 : t2.find? k with
+    | some b => exact Or.inr ⟨_, rfl, rfl⟩
+    | none => rw [h1, h2] at hd; simp at hd
+  | none =>
+    cases h2 : t2.find? k with
+    | some b => rw [h1, h2] at hd; simp at hd
+    | none =>
+      refine Or.inl ⟨_, _, rfl, rfl, ?_, ?_⟩
+      · intro k'
+        rw [find?_cons, find?_cons]
+        by_cases hk : k = k'
+        · rw [if_pos hk, if_pos hk]; rfl
+        · rw [if_neg hk, if_neg hk]; exact h.dom k'
+      · intro k' a b ha hb
+        rw [find?_cons] at ha hb
+        by_cases hk : k = k'
+        · rw [if_pos hk] at ha hb
+          simp only [Option.some.injEq] at ha hb
+          subst ha; subst hb; subst hk
+          exact ⟨hs, hD⟩
+        · rw [if_neg hk] at ha hb
+          exact h.rel k' a b ha hb
+
+/-- Results that agree: related values or the same diagnostic. -/
+def ERel {α : Type} (R : α → α → Prop) : Except CDiag α → Except CDiag α → Prop
+  | .ok a, .ok b => R a b
+  | .error e, .error f => e = f
+  | _, _ => False
+
+def NoD : SymKey → Prop := fun _ => False
+
+theorem ERel.bind {α β : Type} {R : α → α → Prop} {R' : β → β → Prop} {x y : Except CDiag α}
+    {f g : α → Except CDiag β} (h : ERel R x y) (hf : ∀ a b, R a b → ERel R' (f a) (g b)) :
+    ERel R' (x >>= f) (y >>= g) := by
+  cases x <;> cases y <;> simp only [ERel] at h
+  · subst h; show ERel R' (Except.error _) (Except.error _); simp only [ERel]
+  · exact hf _ _ h
+
+theorem ERel.imp {α : Type} {R R' : α → α → Prop} {x y : Except CDiag α} (h : ERel R x y) (hi : ∀ a b, R a b → R' a b) :
+    ERel R' x y := by
+  cases x <;> cases y <;> simp only [ERel] at h ⊢
+  · exact h
+  · exact hi _ _ h
+
+theorem TblInv.cons {names : String → List String → Prop} {t : SymTab} (h : TblInv names t) (k : SymKey) (s : Symbol)
+    (hs : s.scope = k.1) (hl : k.1 ≠ "" → ∃ ns, names k.1 ns ∧ k.2 ∈ ns) : TblInv names ((k, s) :: t) := by
+  constructor
+  · intro k' a ha
+    rw [find?_cons] at ha
+    by_cases hk : k = k'
+    · rw [if_pos hk] at ha
+      simp only [Option.some.injEq] at ha
+      subst ha; subst hk; exact hs
+    · rw [if_neg hk] at ha; exact h.scope k' a ha
+  · intro k' hk' hne
+    rw [find?_cons] at hk'
+    by_cases hk : k = k'
+    · subst hk; exact hl hne
+    · rw [if_neg hk] at hk'; exact h.local_ k' hk' hne
+
+theorem createGlobals_rel (j1 j2 : Int) (names : String → List String → Prop) :
+    ∀ (ds : List X.Decl) (i : Nat) (t1 t2 : SymTab), TRel NoD t1 t2 → TblInv names t1 →
+      ERel (fun a b => TRel NoD a b ∧ TblInv names a) (createGlobalsJ j1 ds i t1) (createGlobalsJ j2 ds i t2) := by
+  intro ds
+  induction ds with
+  | nil => intro i t1 t2 h hi; exact ⟨h, hi⟩
+  | cons d ds ih =>
+    intro i t1 t2 h hi
+    unfold createGlobalsJ
+    rcases insert_rel h ("", d.name)
+        { type := declSymType d, node := .gdecl i, isValDecl := declIsVal d, scope := "", name := d.name, stackOffset := j1 }
+        { type := declSymType d, node := .gdecl i, isValDecl := declIsVal d, scope := "", name := d.name, stackOffset := j2 }
+        ⟨rfl, rfl, rfl, rfl, rfl, rfl, rfl⟩ (fun hd => absurd hd id) with ⟨t1', t2', e1, e2, hr⟩ | ⟨e, e1, e2⟩
+    · rw [e1, e2]
+      simp only [bind, Except.bind]
+      obtain ⟨_, ht⟩ := insert_ok _ _ _ _ e1
+      exact ih (i + 1) t1' t2' hr (by rw [ht]; exact hi.cons _ _ rfl (fun hne => absurd rfl hne))
+    · rw [e1, e2]
+      simp only [bind, Except.bind, ERel]
+
+theorem createFormals_rel (j1 j2 : Int) (names : String → List String → Prop) (p : Nat) (scope : String)
+    (ns : List String) (hns : scope ≠ "" → names scope ns) :
+    ∀ (fs : List X.Formal) (i : Nat) (t1 t2 : SymTab), TRel NoD t1 t2 → TblInv names t1 →
+      (∀ f ∈ fs, f.name ∈ ns) →
+      ERel (fun a b => TRel NoD a b ∧ TblInv names a) (createFormalsJ j1 p scope fs i t1) (createFormalsJ j2 p scope fs i t2) := by
+  intro fs
+  induction fs with
+  | nil => intro i t1 t2 h hi _; exact ⟨h, hi⟩
+  | cons f fs ih =>
+    intro i t1 t2 h hi hmem
+    unfold createFormalsJ
+    rcases insert_rel h (scope, f.name)
+        { type := formalSymType f, node := .formal p i, isValDecl := false, scope := scope, name := f.name, stackOffset := j1 }
+        { type := formalSymType f, node := .formal p i, isValDecl := false, scope := scope, name := f.name, stackOffset := j2 }
+        ⟨rfl, rfl, rfl, rfl, rfl, rfl, rfl⟩ (fun hd => absurd hd id) with ⟨t1', t2', e1, e2, hr⟩ | ⟨e, e1, e2⟩
+    · rw [e1, e2]
+      simp only [bind, Except.bind]
+      obtain ⟨_, ht⟩ := insert_ok _ _ _ _ e1
+      exact ih (i + 1) t1' t2' hr
+        (by rw [ht]; exact hi.cons _ _ rfl (fun hne => ⟨ns, hns hne, hmem f (by simp)⟩))
+        (fun g hg => hmem g (List.mem_cons_of_mem _ hg))
+    · rw [e1, e2]
+      simp only [bind, Except.bind, ERel]
+
+theorem createLocals_rel (j1 j2 : Int) (names : String → List String → Prop) (p : Nat) (scope : String)
+    (ns : List String) (hns : scope ≠ "" → names scope ns) :
+    ∀ (ds : List X.Decl) (i : Nat) (t1 t2 : SymTab), TRel NoD t1 t2 → TblInv names t1 →
+      (∀ d ∈ ds, d.name ∈ ns) →
+      ERel (fun a b => TRel NoD a b ∧ TblInv names a) (createLocalsJ j1 p scope ds i t1) (createLocalsJ j2 p scope ds i t2) := by
+  intro ds
+  induction ds with
+  | nil => intro i t1 t2 h hi _; exact ⟨h, hi⟩
+  | cons d ds ih =>
+    intro i t1 t2 h hi hmem
+    unfold createLocalsJ
+    rcases insert_rel h (scope, d.name)
+        { type := declSymType d, node := .ldecl p i, isValDecl := declIsVal d, scope := scope, name := d.name, stackOffset := j1 }
+        { type := declSymType d, node := .ldecl p i, isValDecl := declIsVal d, scope := scope, name := d.name, stackOffset := j2 }
+        ⟨rfl, rfl, rfl, rfl, rfl, rfl, rfl⟩ (fun hd => absurd hd id) with ⟨t1', t2', e1, e2, hr⟩ | ⟨e, e1, e2⟩
+    · rw [e1, e2]
+      simp only [bind, Except.bind]
+      obtain ⟨_, ht⟩ := insert_ok _ _ _ _ e1
+      exact ih (i + 1) t1' t2' hr
+        (by rw [ht]; exact hi.cons _ _ rfl (fun hne => ⟨ns, hns hne, hmem d (by simp)⟩))
+        (fun g hg => hmem g (List.mem_cons_of_mem _ hg))
+    · rw [e1, e2]
+      simp only [bind, Except.bind, ERel]
+
+/-- The names a procedure declares in its scope. -/
+def procNames (p : X.Proc) : List String := p.formals.map X.Formal.name ++ p.locals.map X.Decl.name
+
+theorem createProcs_rel (j1 j2 : Int) (all : List X.Proc) :
+    ∀ (ps : List X.Proc) (i : Nat) (t1 t2 : SymTab), (∀ p ∈ ps, p ∈ all) → TRel NoD t1 t2 →
+      TblInv (fun sc ns => ∃ q ∈ all, q.name = sc ∧ ns = procNames q) t1 →
+      ERel (fun a b => TRel NoD a b ∧ TblInv (fun sc ns => ∃ q ∈ all, q.name = sc ∧ ns = procNames q) a)
+        (createProcsJ j1 ps i t1) (createProcsJ j2 ps i t2) := by
+  intro ps
+  induction ps with
+  | nil => intro i t1 t2 _ h hi; exact ⟨h, hi⟩
+  | cons p ps ih =>
+    intro i t1 t2 hall h hi
+    have hp : p ∈ all := hall p (by simp)
+    unfold createProcsJ
+    rcases insert_rel h ("", p.name)
+        { type := if p.isFunc then .func else .proc, node := .proc i, isValDecl := false, scope := "", name := p.name, stackOffset := j1 }
+        { type := if p.isFunc then .func else .proc, node := .proc i, isValDecl := false, scope := "", name := p.name, stackOffset := j2 }
+        ⟨rfl, rfl, rfl, rfl, rfl, rfl, rfl⟩ (fun hd => absurd hd id) with ⟨t1', t2', e1, e2, hr⟩ | ⟨e, e1, e2⟩
+    · rw [e1, e2]
+      simp only [bind, Except.bind]
+      obtain ⟨_, ht⟩ := insert_ok _ _ _ _ e1
+      have hi1 : TblInv (fun sc ns => ∃ q ∈ all, q.name = sc ∧ ns = procNames q) t1' := by
+        rw [ht]; exact hi.cons _ _ rfl (fun hne => absurd rfl hne)
+      have hf := createFormals_rel j1 j2 _ i p.name (procNames p) (fun _ => ⟨p, hp, rfl, rfl⟩) p.formals 0 t1' t2' hr hi1
+        (fun f hf => List.mem_append_left _ (List.mem_map.mpr ⟨f, hf, rfl⟩))
+      cases h3 : createFormalsJ j1 i p.name p.formals 0 t1' with
+      | error e3 =>
+        cases h4 : createFormalsJ j2 i p.name p.formals 0 t2' with
+        | error e4 => rw [h3, h4] at hf; simp only [ERel] at hf ⊢; exact hf
+        | ok v => rw [h3, h4] at hf; exact absurd hf id
+      | ok u1 =>
+        cases h4 : createFormalsJ j2 i p.name p.formals 0 t2' with
+        | error e4 => rw [h3, h4] at hf; exact absurd hf id
+        | ok u2 =>
+          rw [h3, h4] at hf
+          obtain ⟨hr2, hi2⟩ := hf
+          simp only
+          have hl := createLocals_rel j1 j2 _ i p.name (procNames p) (fun _ => ⟨p, hp, rfl, rfl⟩) p.locals 0 u1 u2 hr2 hi2
+            (fun d hd => List.mem_append_right _ (List.mem_map.mpr ⟨d, hd, rfl⟩))
+          cases h5 : createLocalsJ j1 i p.name p.locals 0 u1 with
+          | error e5 =>
+            cases h6 : createLocalsJ j2 i p.name p.locals 0 u2 with
+            | error e6 => rw [h5, h6] at hl; simp only [ERel] at hl ⊢; exact hl
+            | ok v => rw [h5, h6] at hl; exact absurd hl id
+          | ok w1 =>
+            cases h6 : createLocalsJ j2 i p.name p.locals 0 u2 with
+            | error e6 => rw [h5, h6] at hl; exact absurd hl id
+            | ok w2 =>
+              rw [h5, h6] at hl
+              obtain ⟨hr3, hi3⟩ := hl
+              simp only
+              exact ih (i + 1) w1 w2 (fun q hq => hall q (List.mem_cons_of_mem _ hq)) hr3 hi3
+    · rw [e1, e2]
+      simp only [bind, Except.bind, ERel]
+
+theorem trel_nil : TRel NoD [] [] := ⟨fun _ => rfl, fun k a b h _ => by simp [SymTab.find?] at h⟩
+
+theorem tblInv_nil (names : String → List String → Prop) : TblInv names [] :=
+  ⟨fun k a h => by simp [SymTab.find?] at h, fun k h _ => by simp [SymTab.find?] at h⟩
+
+/-- **`CreateSymbols`** from two junk values: the same diagnostic, or tables equal up to
+    `stackOffset` whose local keys belong to the procedures of the program. -/
+theorem createSymbols_rel (j1 j2 : Int) (P : X.Program) :
+    ERel (fun a b => TRel NoD a b ∧ TblInv (fun sc ns => ∃ q ∈ P.procs, q.name = sc ∧ ns = procNames q) a)
+      (createSymbolsJ j1 P) (createSymbolsJ j2 P) := by
+  unfold createSymbolsJ
+  have hg := createGlobals_rel j1 j2 (fun sc ns => ∃ q ∈ P.procs, q.name = sc ∧ ns = procNames q) P.globals 0 [] []
+    trel_nil (tblInv_nil _)
+  cases h1 : createGlobalsJ j1 P.globals 0 [] with
+  | error e1 =>
+    cases h2 : createGlobalsJ j2 P.globals 0 [] with
+    | error e2 => rw [h1, h2] at hg; simp only [ERel, bind, Except.bind] at hg ⊢; exact hg
+    | ok v => rw [h1, h2] at hg; exact absurd hg id
+  | ok u1 =>
+    cases h2 : createGlobalsJ j2 P.globals 0 [] with
+    | error e2 => rw [h1, h2] at hg; exact absurd hg id
+    | ok u2 =>
+      rw [h1, h2] at hg
+      simp only [bind, Except.bind]
+      exact createProcs_rel j1 j2 P.procs P.procs 0 u1 u2 (fun _ h => h) hg.1 hg.2
+
+/-! ### `ConstProp` reads `scope`, `isValDecl`, `node` only -/
+
+section
+variable {D : SymKey → Prop} {t1 t2 : SymTab} (hT : TRel D t1 t2)
+include hT
+
+theorem lookup_rel_cases (scope n : String) :
+    (∃ a b, t1.lookup scope n = .ok a ∧ t2.lookup scope n = .ok b ∧ SEq a b) ∨
+    (∃ e, t1.lookup scope n = .error e ∧ t2.lookup scope n = .error e) := by
+  rcases hT.lookup scope n with ⟨k, a, b, _, h1, h2, h3, h4⟩ | ⟨_, h1, h2⟩
+  · exact Or.inl ⟨a, b, h1, h2, (hT.rel k a b h3 h4).1⟩
+  · exact Or.inr ⟨_, h1, h2⟩
+
+theorem lookupVal_rel (st : CPState) (scope name : String) : lookupVal t1 st scope name = lookupVal t2 st scope name := by
+  unfold lookupVal
+  rcases lookup_rel_cases hT scope name with ⟨a, b, h1, h2, hs⟩ | ⟨e, h1, h2⟩
+  · rw [h1, h2]
+    simp only [bind, Except.bind]
+    obtain ⟨e1, e2, e3, e4, e5, e6, e7⟩ := hs
+    by_cases hc : a.scope ≠ "" ∧ ¬ st.declared.contains name = true
+    · rw [if_pos hc, if_pos (by rw [← e4]; exact hc)]
+      rcases lookup_rel_cases hT "" name with ⟨a', b', h1', h2', hs'⟩ | ⟨e, h1', h2'⟩
+      · rw [h1', h2']
+        simp only
+        rw [hs'.2.2.1, hs'.2.1]
+      · rw [h1', h2']
+    · rw [if_neg hc, if_neg (by rw [← e4]; exact hc)]
+      simp only [pure, Except.pure]
+      rw [e3, e2]
+  · rw [h1, h2]
+    rfl
+
+theorem cpCall_rel (st : CPState) (scope : String) (sys : Int) (f : String) :
+    cpCall t1 st scope sys f = cpCall t2 st scope sys f := by
+  unfold cpCall
+  rw [lookupVal_rel hT]
+
+mutual
+theorem cpExpr_rel (st : CPState) (scope : String) : (e : X.Expr) → cpExpr t1 st scope e = cpExpr t2 st scope e
+  | .num v => by unfold cpExpr; rfl
+  | .bool b => by unfold cpExpr; rfl
+  | .str bs => by unfold cpExpr; rfl
+  | .name n => by unfold cpExpr; rw [lookupVal_rel hT]
+  | .sub n i => by unfold cpExpr; rw [cpExpr_rel st scope i]
+  | .call f args => by unfold cpExpr; rw [cpArgs_rel st scope args, cpCall_rel hT]
+  | .syscall id args => by unfold cpExpr; rw [cpArgs_rel st scope args, cpCall_rel hT]
+  | .un op e => by unfold cpExpr; rw [cpExpr_rel st scope e]
+  | .bin op l r => by unfold cpExpr; rw [cpExpr_rel st scope l, cpExpr_rel st scope r]
+theorem cpArgs_rel (st : CPState) (scope : String) : (es : List X.Expr) → cpArgs t1 st scope es = cpArgs t2 st scope es
+  | [] => by unfold cpArgs; rfl
+  | e :: es => by unfold cpArgs; rw [cpExpr_rel st scope e, cpArgs_rel st scope es]
+end
+
+mutual
+theorem cpStmt_rel (st : CPState) (scope : String) : (s : X.Stmt) → cpStmt t1 st scope s = cpStmt t2 st scope s
+  | .skip => by unfold cpStmt; rfl
+  | .stop => by unfold cpStmt; rfl
+  | .ret e => by unfold cpStmt; rw [cpExpr_rel hT]
+  | .ite c t e => by unfold cpStmt; rw [cpExpr_rel hT, cpStmt_rel st scope t, cpStmt_rel st scope e]
+  | .while c b => by unfold cpStmt; rw [cpExpr_rel hT, cpStmt_rel st scope b]
+  | .seq ss => by unfold cpStmt; rw [cpStmts_rel st scope ss]
+  | .assign n e => by unfold cpStmt; rw [lookupVal_rel hT, cpExpr_rel hT]
+  | .assignSub n i e => by unfold cpStmt; rw [cpExpr_rel hT st scope i, cpExpr_rel hT st scope e]
+  | .call f args => by unfold cpStmt; rw [cpArgs_rel hT, cpCall_rel hT]
+  | .syscall id args => by unfold cpStmt; rw [cpArgs_rel hT, cpCall_rel hT]
+theorem cpStmts_rel (st : CPState) (scope : String) : (ss : List X.Stmt) → cpStmts t1 st scope ss = cpStmts t2 st scope ss
+  | [] => by unfold cpStmts; rfl
+  | s :: ss => by unfold cpStmts; rw [cpStmt_rel st scope s, cpStmts_rel st scope ss]
+end
+
+theorem cpDecls_rel (scope : String) (mk : Nat → NodeRef) : ∀ (ds : List X.Decl) (i : Nat) (st : CPState),
+    cpDecls t1 scope mk ds i st = cpDecls t2 scope mk ds i st := by
+  intro ds
+  induction ds with
+  | nil => intro i st; unfold cpDecls; rfl
+  | cons d ds ih =>
+    intro i st
+    unfold cpDecls
+    cases d with
+    | val n e => simp only [cpExpr_rel hT, ih]
+    | var n => simp only [ih]
+    | array n e => simp only [cpExpr_rel hT, ih]
+
+theorem cpProcs_rel : ∀ (ps : List X.Proc) (i : Nat) (st : CPState), cpProcs t1 ps i st = cpProcs t2 ps i st := by
+  intro ps
+  induction ps with
+  | nil => intro i st; unfold cpProcs; rfl
+  | cons p ps ih =>
+    intro i st
+    unfold cpProcs
+    simp only [cpDecls_rel hT, cpStmt_rel hT, ih]
+
+theorem constProp_rel (P : X.Program) : constProp t1 P = constProp t2 P := by
+  unfold constProp
+  simp only [cpDecls_rel hT, cpProcs_rel hT]
+
+end
+
+/-! ### `CodeGen` -/
+
+theorem find?_isSome_modify (t : SymTab) (k k' : SymKey) (f : Symbol → Symbol) :
+    ((t.modify k f).find? k').isSome = (t.find? k').isSome := by
+  rw [find?_modify]
+  by_cases h : k' = k
+  · rw [if_pos h]; simp
+  · rw [if_neg h]
+
+theorem keyOf_modify (t : SymTab) (k : SymKey) (f : Symbol → Symbol) (scope n : String) :
+    (t.modify k f).keyOf scope n = t.keyOf scope n :=
+  keyOf_congr (fun k' => find?_isSome_modify t k k' f) scope n
+
+theorem keyOf_modifySym (t : SymTab) (sc m : String) (f : Symbol → Symbol) (scope n : String) :
+    (modifySym t sc m f).keyOf scope n = t.keyOf scope n := by
+  unfold modifySym
+  cases t.keyOf sc m with
+  | none => rfl
+  | some k => exact keyOf_modify t k f scope n
+
+theorem TblInv.modify {names : String → List String → Prop} {t : SymTab} (h : TblInv names t) (k : SymKey) (f : Symbol → Symbol)
+    (hf : ∀ a, (f a).scope = a.scope) : TblInv names (t.modify k f) := by
+  constructor
+  · intro k' a ha
+    rw [find?_modify] at ha
+    by_cases hk : k' = k
+    · rw [if_pos hk] at ha
+      cases h0 : t.find? k' with
+      | none => rw [h0] at ha; simp at ha
+      | some a0 =>
+        rw [h0] at ha
+        simp only [Option.map_some, Option.some.injEq] at ha
+        rw [← ha, hf]
+        exact h.scope k' a0 h0
+    · rw [if_neg hk] at ha; exact h.scope k' a ha
+  · intro k' hk' hne
+    rw [find?_isSome_modify] at hk'
+    exact h.local_ k' hk' hne
+
+theorem TblInv.modifySym {names : String → List String → Prop} {t : SymTab} (h : TblInv names t) (sc m : String)
+    (f : Symbol → Symbol) (hf : ∀ a, (f a).scope = a.scope) : TblInv names (modifySym t sc m f) := by
+  unfold Xcmp.modifySym
+  cases t.keyOf sc m with
+  | none => exact h
+  | some k => exact h.modify k f hf
+
+/-- The keys whose offset an update of the names `ms` (looked up from `sc`) sets. -/
+def Dof (t : SymTab) (sc : String) (ms : List String) : SymKey → Prop := fun k => ∃ m ∈ ms, t.keyOf sc m = some k
+
+theorem formalLocations_rel (sc : String) (fr : Nat) : ∀ (fs : List X.Formal) (fbo : Int) (D : SymKey → Prop) (t1 t2 : SymTab),
+    TRel D t1 t2 →
+    TRel (fun k => D k ∨ Dof t1 sc (fs.map X.Formal.name) k) (formalLocations sc fr fs fbo t1) (formalLocations sc fr fs fbo t2) ∧
+    (∀ scope n, (formalLocations sc fr fs fbo t1).keyOf scope n = t1.keyOf scope n) := by
+  intro fs
+  induction fs with
+  | nil =>
+    intro fbo D t1 t2 h
+    exact ⟨h.mono (fun k hk => by rcases hk with hk | ⟨m, hm, _⟩; exact hk; simp at hm), fun _ _ => rfl⟩
+  | cons f fs ih =>
+    intro fbo D t1 t2 h
+    unfold formalLocations
+    have h1 : TRel (fun k' => D k' ∨ t1.keyOf sc f.name = some k')
+        (modifySym t1 sc f.name fun s => { s with stackOffset := fbo, frame := fr })
+        (modifySym t2 sc f.name fun s => { s with stackOffset := fbo, frame := fr }) :=
+      h.modifySym sc f.name _ (fun a b hs => ⟨hs.1, hs.2.1, hs.2.2.1, hs.2.2.2.1, hs.2.2.2.2.1, rfl, hs.2.2.2.2.2.2⟩)
+        (fun k' hd hne => by rcases hd with hd | hd; exact hd; exact absurd hd hne)
+        (fun _ _ _ _ _ _ _ => rfl)
+    obtain ⟨h2, hk2⟩ := ih (fbo + 1) _ _ _ h1
+    refine ⟨h2.mono ?_, fun scope n => by rw [hk2, keyOf_modifySym]⟩
+    intro k hk
+    rcases hk with hk | ⟨m, hm, hkm⟩
+    · exact Or.inl (Or.inl hk)
+    · simp only [List.map_cons, List.mem_cons] at hm
+      rcases hm with rfl | hm
+      · exact Or.inl (Or.inr hkm)
+      · exact Or.inr ⟨m, hm, by rw [keyOf_modifySym]; exact hkm⟩
+
+theorem formalLocations_inv {names : String → List String → Prop} (sc : String) (fr : Nat) :
+    ∀ (fs : List X.Formal) (fbo : Int) (t : SymTab), TblInv names t → TblInv names (formalLocations sc fr fs fbo t) := by
+  intro fs
+  induction fs with
+  | nil => intro fbo t h; exact h
+  | cons f fs ih =>
+    intro fbo t h
+    unfold formalLocations
+    exact ih _ _ (h.modifySym sc f.name _ (fun _ => rfl))
+
+theorem localDeclLocations_rel (sc : String) (fr : Nat) : ∀ (ds : List ADecl) (c : Nat) (D : SymKey → Prop) (t1 t2 : SymTab),
+    TRel D t1 t2 →
+    ERel (fun r1 r2 => r1.2 = r2.2 ∧ TRel (fun k => D k ∨ Dof t1 sc (ds.map ADecl.name) k) r1.1 r2.1 ∧
+          (∀ scope n, r1.1.keyOf scope n = t1.keyOf scope n))
+      (localDeclLocations sc fr ds c t1) (localDeclLocations sc fr ds c t2) := by
+  intro ds
+  induction ds with
+  | nil =>
+    intro c D t1 t2 h
+    exact ⟨rfl, h.mono (fun k hk => by rcases hk with hk | ⟨m, hm, _⟩; exact hk; simp at hm), fun _ _ => rfl⟩
+  | cons d ds ih =>
+    intro c D t1 t2 h
+    unfold localDeclLocations
+    cases d with
+    | array n e => simp only [ERel]
+    | val n e =>
+      simp only
+      have h1 : TRel (fun k' => D k' ∨ t1.keyOf sc n = some k')
+          (modifySym t1 sc n fun s => { s with stackOffset := -(c : Int), frame := fr })
+          (modifySym t2 sc n fun s => { s with stackOffset := -(c : Int), frame := fr }) :=
+        h.modifySym sc n _ (fun a b hs => ⟨hs.1, hs.2.1, hs.2.2.1, hs.2.2.2.1, hs.2.2.2.2.1, rfl, hs.2.2.2.2.2.2⟩)
+          (fun k' hd hne => by rcases hd with hd | hd; exact hd; exact absurd hd hne)
+          (fun _ _ _ _ _ _ _ => rfl)
+      refine (ih (c + 1) _ _ _ h1).imp ?_
+      intro r1 r2 ⟨e1, e2, e3⟩
+      refine ⟨e1, e2.mono ?_, fun scope m => by rw [e3, keyOf_modifySym]⟩
+      intro k hk
+      rcases hk with hk | ⟨m, hm, hkm⟩
+      · exact Or.inl (Or.inl hk)
+      · simp only [List.map_cons, List.mem_cons, ADecl.name] at hm
+        rcases hm with rfl | hm
+        · exact Or.inl (Or.inr hkm)
+        · exact Or.inr ⟨m, hm, by rw [keyOf_modifySym]; exact hkm⟩
+    | var n =>
+      simp only
+      have h1 : TRel (fun k' => D k' ∨ t1.keyOf sc n = some k')
+          (modifySym t1 sc n fun s => { s with stackOffset := -(c : Int), frame := fr })
+          (modifySym t2 sc n fun s => { s with stackOffset := -(c : Int), frame := fr }) :=
+        h.modifySym sc n _ (fun a b hs => ⟨hs.1, hs.2.1, hs.2.2.1, hs.2.2.2.1, hs.2.2.2.2.1, rfl, hs.2.2.2.2.2.2⟩)
+          (fun k' hd hne => by rcases hd with hd | hd; exact hd; exact absurd hd hne)
+          (fun _ _ _ _ _ _ _ => rfl)
+      refine (ih (c + 1) _ _ _ h1).imp ?_
+      intro r1 r2 ⟨e1, e2, e3⟩
+      refine ⟨e1, e2.mono ?_, fun scope m => by rw [e3, keyOf_modifySym]⟩
+      intro k hk
+      rcases hk with hk | ⟨m, hm, hkm⟩
+      · exact Or.inl (Or.inl hk)
+      · simp only [List.map_cons, List.mem_cons, ADecl.name] at hm
+        rcases hm with rfl | hm
+        · exact Or.inl (Or.inr hkm)
+        · exact Or.inr ⟨m, hm, by rw [keyOf_modifySym]; exact hkm⟩
+
+theorem localDeclLocations_inv {names : String → List String → Prop} (sc : String) (fr : Nat) :
+    ∀ (ds : List ADecl) (c : Nat) (t t' : SymTab) (n : Nat), TblInv names t →
+      localDeclLocations sc fr ds c t = .ok (t', n) → TblInv names t' := by
+  intro ds
+  induction ds with
+  | nil =>
+    intro c t t' n h he
+    simp only [localDeclLocations, pure, Except.pure, Except.ok.injEq, Prod.mk.injEq] at he
+    rw [← he.1]; exact h
+  | cons d ds ih =>
+    intro c t t' n h he
+    unfold localDeclLocations at he
+    cases d with
+    | array m e => simp at he
+    | val m e =>
+      simp only at he
+      exact ih _ _ _ _ (h.modifySym sc _ (fun s => { s with stackOffset := -(c : Int), frame := fr }) (fun _ => rfl)) he
+    | var m =>
+      simp only at he
+      exact ih _ _ _ _ (h.modifySym sc _ (fun s => { s with stackOffset := -(c : Int), frame := fr }) (fun _ => rfl)) he
+
+theorem keyOf_cases (t : SymTab) (scope n : String) (k : SymKey) (h : t.keyOf scope n = some k) :
+    (k = (scope, n) ∨ k = ("", n)) ∧ (t.find? k).isSome = true := by
+  unfold SymTab.keyOf at h
+  cases h1 : t.find? (scope, n) with
+  | some a =>
+    rw [h1] at h
+    simp only [Option.some.injEq] at h
+    subst h
+    exact ⟨Or.inl rfl, by rw [h1]; rfl⟩
+  | none =>
+    rw [h1] at h
+    simp only at h
+    split at h
+    · cases h2 : t.find? ("", n) with
+      | some a =>
+        rw [h2] at h
+        simp only [Option.some.injEq] at h
+        subst h
+        exact ⟨Or.inr rfl, by rw [h2]; rfl⟩
+      | none => rw [h2] at h; simp at h
+    · simp at h
+
+/-- The relation between the two runs of the `CodeGen` walk. -/
+structure SRel (names : String → List String → Prop) (st1 st2 : CGState) : Prop where
+  tbl : TRel NoD st1.tbl st2.tbl
+  inv : TblInv names st1.tbl
+  gs : st1.gs = st2.gs
+  go : st1.globalsOffset = st2.globalsOffset
+  frames : st1.frames = st2.frames
+  instrs : st1.instrs = st2.instrs
+
+theorem cgLocalVars_rel {names : String → List String → Prop} (sc : String) : ∀ (ds : List ADecl) (t1 t2 : SymTab) (gs : GS),
+    TRel NoD t1 t2 → TblInv names t1 →
+    (cgLocalVars sc ds t1 gs).2 = (cgLocalVars sc ds t2 gs).2 ∧
+    TRel NoD (cgLocalVars sc ds t1 gs).1 (cgLocalVars sc ds t2 gs).1 ∧ TblInv names (cgLocalVars sc ds t1 gs).1 := by
+  intro ds
+  induction ds with
+  | nil => intro t1 t2 gs h hi; exact ⟨rfl, h, hi⟩
+  | cons d ds ih =>
+    intro t1 t2 gs h hi
+    unfold cgLocalVars
+    cases d with
+    | val n e => exact ih t1 t2 gs h hi
+    | array n e => exact ih t1 t2 gs h hi
+    | var n =>
+      simp only
+      exact ih _ _ _
+        (h.modifySym sc n _ (fun a b hs => ⟨hs.1, hs.2.1, hs.2.2.1, hs.2.2.2.1, hs.2.2.2.2.1, hs.2.2.2.2.2.1, rfl⟩)
+          (fun k' hd _ => hd) (fun _ _ hd => absurd hd id))
+        (hi.modifySym sc n _ (fun _ => rfl))
+
+theorem cgGlobals_rel {names : String → List String → Prop} : ∀ (ds : List ADecl) (st1 st2 : CGState), SRel names st1 st2 →
+    ERel (SRel names) (cgGlobals ds st1) (cgGlobals ds st2) := by
+  intro ds
+  induction ds with
+  | nil => intro st1 st2 h; exact h
+  | cons d ds ih =>
+    intro st1 st2 h
+    unfold cgGlobals
+    cases d with
+    | val n e => exact ih st1 st2 h
+    | var n =>
+      simp only
+      rcases lookup_rel_cases h.tbl "" n with ⟨a, b, h1, h2, _⟩ | ⟨e, h1, h2⟩
+      · rw [h1, h2]
+        simp only [bind, Except.bind]
+        apply ih
+        rw [← h.gs]
+        exact ⟨h.tbl.modifySym "" n _ (fun a b hs => ⟨hs.1, hs.2.1, hs.2.2.1, hs.2.2.2.1, hs.2.2.2.2.1, hs.2.2.2.2.2.1, rfl⟩)
+            (fun k' hd _ => hd) (fun _ _ hd => absurd hd id),
+          h.inv.modifySym "" n _ (fun _ => rfl), rfl, h.go, h.frames, h.instrs⟩
+      · rw [h1, h2]
+        simp only [bind, Except.bind, ERel]
+    | array n e =>
+      simp only
+      rcases lookup_rel_cases h.tbl "" n with ⟨a, b, h1, h2, _⟩ | ⟨e', h1, h2⟩
+      · rw [h1, h2]
+        simp only [bind, Except.bind]
+        cases hsz : arraySize n e with
+        | error er => simp only [ERel]
+        | ok size =>
+          simp only
+          apply ih
+          rw [← h.gs, ← h.go]
+          exact ⟨h.tbl.modifySym "" n _ (fun a b hs => ⟨hs.1, hs.2.1, hs.2.2.1, hs.2.2.2.1, hs.2.2.2.2.1, hs.2.2.2.2.2.1, rfl⟩)
+              (fun k' hd _ => hd) (fun _ _ hd => absurd hd id),
+            h.inv.modifySym "" n _ (fun _ => rfl), rfl, rfl, h.frames, h.instrs⟩
+      · rw [h1, h2]
+        simp only [bind, Except.bind, ERel]
+
+/-- A key is present iff `keyOf` of its own scope and name returns it. -/
+theorem find?_isSome_keyOf (t : SymTab) (k : SymKey) : (t.find? k).isSome = (t.keyOf k.1 k.2 == some k) := by
+  obtain ⟨k1, k2⟩ := k
+  unfold SymTab.keyOf
+  simp only
+  cases hf : t.find? (k1, k2) with
+  | some x => simp
+  | none =>
+    simp only [Option.isSome_none]
+    by_cases hk1 : k1 ≠ ""
+    · rw [if_pos hk1]
+      cases t.find? ("", k2) with
+      | none => rfl
+      | some y =>
+        simp only
+        have : ¬ ((("", k2) : SymKey) = (k1, k2)) := by
+          intro e
+          apply hk1
+          exact (congrArg Prod.fst e).symm
+        simp [this]
+    · rw [if_neg hk1]; rfl
+
+theorem TRel.lkRel {D : SymKey → Prop} {t1 t2 : SymTab} (h : TRel D t1 t2) (sc : String)
+    (hscope : ∀ k a, t1.find? k = some a → a.scope = k.1)
+    (hD : ∀ n, (t1.find? (sc, n)).isSome = true → sc ≠ "" → t1.keyOf sc n = some (sc, n) → D (sc, n)) :
+    LkRel sc t1 t2 := by
+  intro n
+  rcases h.lookup sc n with ⟨k, a, b, hk, h1, h2, h3, h4⟩ | ⟨_, h1, h2⟩
+  · refine Or.inl ⟨a, b, h1, h2, (h.rel k a b h3 h4).1, fun hne => ?_⟩
+    have hsk := hscope k a h3
+    obtain ⟨hkc, _⟩ := keyOf_cases t1 sc n k hk
+    rcases hkc with rfl | rfl
+    · have hsc : a.scope = sc := hsk
+      exact (h.rel _ a b h3 h4).2 (hD n (by rw [h3]; rfl) (by rw [← hsc]; exact hne) hk)
+    · exact absurd hsk hne
+  · exact Or.inr ⟨_, h1, h2⟩
+
+theorem cgProc_rel {names : String → List String → Prop} (i : Nat) (p : AProc) (st1 st2 : CGState) (h : SRel names st1 st2)
+    (hkeys : ∀ n, (st1.tbl.find? (p.name, n)).isSome = true → p.name ≠ "" →
+      n ∈ p.formals.map X.Formal.name ++ p.locals.map ADecl.name) :
+    ERel (SRel names) (cgProc i p st1) (cgProc i p st2) := by
+  unfold cgProc
+  rcases (lookup_rel_cases h.tbl "" p.name).symm with ⟨e, h1, h2⟩ | ⟨a, b, h1, h2, _⟩
+  · rw [h1, h2]; simp only [bind, Except.bind, ERel]
+  rw [h1, h2]
+  simp only [bind, Except.bind]
+  -- the symbol of the procedure itself
+  have h0 : TRel NoD (modifySym st1.tbl "" p.name fun s => { s with frame := i })
+      (modifySym st2.tbl "" p.name fun s => { s with frame := i }) :=
+    h.tbl.modifySym "" p.name _ (fun a b hs => ⟨hs.1, hs.2.1, hs.2.2.1, hs.2.2.2.1, hs.2.2.2.2.1, rfl, hs.2.2.2.2.2.2⟩)
+      (fun k' hd _ => hd) (fun _ _ hd => absurd hd id)
+  have i0 : TblInv names (modifySym st1.tbl "" p.name fun s => { s with frame := i }) :=
+    h.inv.modifySym "" p.name _ (fun _ => rfl)
+  obtain ⟨hF, kF⟩ := formalLocations_rel p.name i p.formals
+    (1 + ((if p.isFunc then FB_PARAM_OFFSET_FUNC else FB_PARAM_OFFSET_PROC : Nat) : Int)) NoD _ _ h0
+  have iF := formalLocations_inv (names := names) p.name i p.formals
+    (1 + ((if p.isFunc then FB_PARAM_OFFSET_FUNC else FB_PARAM_OFFSET_PROC : Nat) : Int)) _ i0
+  have hL := localDeclLocations_rel p.name i p.locals 0 _ _ _ hF
+  revert hL
+  cases hl1 : localDeclLocations p.name i p.locals 0 (formalLocations p.name i p.formals
+      (1 + ((if p.isFunc then FB_PARAM_OFFSET_FUNC else FB_PARAM_OFFSET_PROC : Nat) : Int))
+      (modifySym st1.tbl "" p.name fun s => { s with frame := i })) with
+  | error e1 =>
+    intro hL
+    cases hl2 : localDeclLocations p.name i p.locals 0 (formalLocations p.name i p.formals
+        (1 + ((if p.isFunc then FB_PARAM_OFFSET_FUNC else FB_PARAM_OFFSET_PROC : Nat) : Int))
+        (modifySym st2.tbl "" p.name fun s => { s with frame := i })) with
+    | error e2 => rw [hl2] at hL; simp only [ERel] at hL ⊢; exact hL
+    | ok v => rw [hl2] at hL; exact absurd hL id
+  | ok r1 =>
+    intro hL
+    cases hl2 : localDeclLocations p.name i p.locals 0 (formalLocations p.name i p.formals
+        (1 + ((if p.isFunc then FB_PARAM_OFFSET_FUNC else FB_PARAM_OFFSET_PROC : Nat) : Int))
+        (modifySym st2.tbl "" p.name fun s => { s with frame := i })) with
+    | error e2 => rw [hl2] at hL; exact absurd hL id
+    | ok r2 =>
+      rw [hl2] at hL
+      obtain ⟨tbl2a, nl⟩ := r1
+      obtain ⟨tbl2b, nl'⟩ := r2
+      obtain ⟨hn, hT2, kL⟩ := hL
+      simp only at hn hT2 kL
+      subst hn
+      simp only
+      have i2 := localDeclLocations_inv (names := names) p.name i p.locals 0 _ tbl2a nl iF hl1
+      -- lookups from the scope of the procedure agree, offsets included
+      have hkeep : ∀ k, (tbl2a.find? k).isSome = (st1.tbl.find? k).isSome := by
+        intro k
+        have e1 : ∀ scope n, tbl2a.keyOf scope n = st1.tbl.keyOf scope n := by
+          intro scope n
+          rw [kL, kF, keyOf_modifySym]
+        rw [find?_isSome_keyOf, find?_isSome_keyOf, e1]
+      have hlk : LkRel p.name tbl2a tbl2b := by
+        apply hT2.lkRel p.name i2.scope
+        intro n hpres hne hk
+        have hin := hkeys n (by rw [← hkeep]; exact hpres) hne
+        rcases List.mem_append.mp hin with hf | hl
+        · exact Or.inl (Or.inr ⟨n, hf, by rw [← kF, ← kL]; exact hk⟩)
+        · exact Or.inr ⟨n, hl, by rw [← kL]; exact hk⟩
+      have hgen := congrFun (genStmt_rel tbl2a tbl2b p.name i (takeLabel st1.gs).1 hlk p.body)
+        { (takeLabel st1.gs).2 with offset := nl, size := nl }
+      rw [← h.gs]
+      simp only [StateT.run]
+      rw [← hgen]
+      cases hg : genStmt { tbl := tbl2a, scope := p.name, frame := i, exitLabel := (takeLabel st1.gs).1 } p.body
+          { (takeLabel st1.gs).2 with offset := nl, size := nl } with
+      | error eg => simp only [ERel]
+      | ok v =>
+        obtain ⟨body, gs2⟩ := v
+        simp only [pure, Except.pure, ERel]
+        obtain ⟨c1, c2, c3⟩ := cgLocalVars_rel (names := names) p.name p.locals tbl2a tbl2b gs2
+          (hT2.mono (fun k hk => absurd hk id)) i2
+        exact ⟨c2, c3, c1, h.go, by simp only; rw [h.frames], by simp only; rw [h.instrs]⟩
+
+theorem cgProcs_rel {names : String → List String → Prop} : ∀ (ps : List AProc) (i : Nat) (st1 st2 : CGState),
+    SRel names st1 st2 →
+    (∀ p ∈ ps, ∀ ns, names p.name ns → ns = p.formals.map X.Formal.name ++ p.locals.map ADecl.name) →
+    ERel (SRel names) (cgProcs ps i st1) (cgProcs ps i st2) := by
+  intro ps
+  induction ps with
+  | nil => intro i st1 st2 h _; exact h
+  | cons p ps ih =>
+    intro i st1 st2 h hlink
+    unfold cgProcs
+    have hp := cgProc_rel i p st1 st2 h (by
+      intro n hpres hne
+      obtain ⟨ns, hns, hn⟩ := h.inv.local_ (p.name, n) hpres hne
+      rw [hlink p (by simp) ns hns] at hn
+      exact hn)
+    exact hp.bind (fun a b hab => ih (i + 1) a b hab (fun q hq => hlink q (List.mem_cons_of_mem _ hq)))
+
+/-- What `LowerDirectives` reads of two generator outputs. -/
+structure ORel (cg1 cg2 : CGOut) : Prop where
+  instrs : cg1.instrs = cg2.instrs
+  data : cg1.data = cg2.data
+  frames : cg1.frames = cg2.frames
+  go : cg1.globalsOffset = cg2.globalsOffset
+  tbl : TRel NoD cg1.tbl cg2.tbl
+
+theorem codeGen_rel {names : String → List String → Prop} (t1 t2 : SymTab) (A : AProgram) (hT : TRel NoD t1 t2)
+    (hI : TblInv names t1)
+    (hlink : ∀ p ∈ A.procs, ∀ ns, names p.name ns → ns = p.formals.map X.Formal.name ++ p.locals.map ADecl.name) :
+    ERel ORel (codeGen t1 A) (codeGen t2 A) := by
+  unfold codeGen
+  have h0 : SRel names { tbl := t1, instrs := startStub } { tbl := t2, instrs := startStub } :=
+    ⟨hT, hI, rfl, rfl, rfl, rfl⟩
+  refine (cgGlobals_rel A.globals _ _ h0).bind (fun s1 s2 hg => ?_)
+  refine (cgProcs_rel A.procs 0 s1 s2 hg hlink).bind (fun u1 u2 hp => ?_)
+  exact ⟨hp.instrs, by simp only; rw [hp.gs], hp.frames, hp.go, hp.tbl⟩
+
+theorem lowerOne_rel (cg1 cg2 : CGOut) (h : ORel cg1 cg2) (d : IDir) : lowerOne cg1 d = lowerOne cg2 d := by
+  have hfr : ∀ i, frameOf cg1 i = frameOf cg2 i := fun i => by unfold frameOf; rw [h.frames]
+  cases d with
+  | dir x => rfl
+  | spValue => simp only [lowerOne, h.data, h.go]
+  | fb k f o => simp only [lowerOne, hfr]
+  | prologue name =>
+    simp only [lowerOne]
+    have hd := h.tbl.dom ("", name)
+    cases h1 : cg1.tbl.find? ("", name) with
+    | none =>
+      cases h2 : cg2.tbl.find? ("", name) with
+      | none => rfl
+      | some b => rw [h1, h2] at hd; simp at hd
+    | some a =>
+      cases h2 : cg2.tbl.find? ("", name) with
+      | none => rw [h1, h2] at hd; simp at hd
+      | some b =>
+        obtain ⟨hs, _⟩ := h.tbl.rel _ a b h1 h2
+        simp only [hs.1, hs.2.2.2.2.2.1, hfr]
+  | epilogue name =>
+    simp only [lowerOne]
+    have hd := h.tbl.dom ("", name)
+    cases h1 : cg1.tbl.find? ("", name) with
+    | none =>
+      cases h2 : cg2.tbl.find? ("", name) with
+      | none => rfl
+      | some b => rw [h1, h2] at hd; simp at hd
+    | some a =>
+      cases h2 : cg2.tbl.find? ("", name) with
+      | none => rw [h1, h2] at hd; simp at hd
+      | some b =>
+        obtain ⟨hs, _⟩ := h.tbl.rel _ a b h1 h2
+        simp only [hs.1, hs.2.2.2.2.2.1, hfr]
+
+theorem lowerCode_rel (cg1 cg2 : CGOut) (h : ORel cg1 cg2) : ∀ (c : Code), lowerCode cg1 c = lowerCode cg2 c := by
+  intro c
+  induction c with
+  | nil => rfl
+  | cons d ds ih => simp only [lowerCode, lowerOne_rel cg1 cg2 h, ih]
+
+theorem lower_rel (cg1 cg2 : CGOut) (h : ORel cg1 cg2) : lower cg1 = lower cg2 := by
+  unfold lower
+  rw [h.instrs]
+  exact lowerCode_rel cg1 cg2 h _
+
+/-! ### The whole front half -/
+
+theorem cpDecls_names (tbl : SymTab) (scope : String) (mk : Nat → NodeRef) : ∀ (ds : List X.Decl) (i : Nat) (st : CPState)
+    (ds' : List ADecl) (st' : CPState), cpDecls tbl scope mk ds i st = .ok (ds', st') →
+    ds'.map ADecl.name = ds.map X.Decl.name := by
+  intro ds
+  induction ds with
+  | nil =>
+    intro i st ds' st' h
+    simp only [cpDecls, pure, Except.pure, Except.ok.injEq, Prod.mk.injEq] at h
+    rw [← h.1]; rfl
+  | cons d ds ih =>
+    intro i st ds' st' h
+    unfold cpDecls at h
+    cases d with
+    | var n =>
+      simp only [bind, Except.bind, pure, Except.pure] at h
+      split at h
+      · simp at h
+      · rename_i w hw
+        simp only [Except.ok.injEq, Prod.mk.injEq] at h
+        rw [← h.1]
+        simp only [List.map_cons, ih _ _ _ _ hw]
+        rfl
+    | val n e =>
+      simp only [bind, Except.bind, pure, Except.pure] at h
+      split at h
+      · simp at h
+      · split at h
+        · simp at h
+        · split at h
+          · simp at h
+          · rename_i w hw
+            simp only [Except.ok.injEq, Prod.mk.injEq] at h
+            rw [← h.1]
+            simp only [List.map_cons, ih _ _ _ _ hw]
+            rfl
+    | array n e =>
+      simp only [bind, Except.bind, pure, Except.pure] at h
+      split at h
+      · simp at h
+      · split at h
+        · simp at h
+        · rename_i w hw
+          simp only [Except.ok.injEq, Prod.mk.injEq] at h
+          rw [← h.1]
+          simp only [List.map_cons, ih _ _ _ _ hw]
+          rfl
+
+/-- Name, formals and declared names of a procedure survive `ConstProp`. -/
+theorem cpProcs_sig (tbl : SymTab) : ∀ (ps : List X.Proc) (i : Nat) (st : CPState) (ps' : List AProc),
+    cpProcs tbl ps i st = .ok ps' →
+    ∀ p' ∈ ps', ∃ p ∈ ps, p'.name = p.name ∧ p'.formals = p.formals ∧ p'.locals.map ADecl.name = p.locals.map X.Decl.name := by
+  intro ps
+  induction ps with
+  | nil =>
+    intro i st ps' h
+    simp only [cpProcs, pure, Except.pure, Except.ok.injEq] at h
+    subst h
+    intro p' hp'; simp at hp'
+  | cons p ps ih =>
+    intro i st ps' h
+    unfold cpProcs at h
+    simp only [bind, Except.bind] at h
+    split at h
+    · simp at h
+    · rename_i v hv
+      obtain ⟨locals, st2⟩ := v
+      simp only at h
+      split at h
+      · simp at h
+      · rename_i body hb
+        split at h
+        · simp at h
+        · rename_i rest hr
+          simp only [pure, Except.pure, Except.ok.injEq] at h
+          subst h
+          intro p' hp'
+          rcases List.mem_cons.mp hp' with rfl | hp'
+          · exact ⟨p, by simp, rfl, rfl, cpDecls_names _ _ _ _ _ _ _ _ hv⟩
+          · obtain ⟨q, hq, hsig⟩ := ih _ _ _ hr p' hp'
+            exact ⟨q, List.mem_cons_of_mem _ hq, hsig⟩
+
+theorem optDecl_name (d : ADecl) : (optDecl d).name = d.name := by cases d <;> rfl
+
+theorem nodup_map_inj {α β : Type} (f : α → β) : ∀ (l : List α), (l.map f).Nodup → ∀ a ∈ l, ∀ b ∈ l, f a = f b → a = b := by
+  intro l
+  induction l with
+  | nil => intro _ a ha; simp at ha
+  | cons x xs ih =>
+    intro h a ha b hb hab
+    simp only [List.map_cons, List.nodup_cons, List.mem_map, not_exists, not_and] at h
+    rcases List.mem_cons.mp ha with ha' | ha' <;> rcases List.mem_cons.mp hb with hb' | hb'
+    · rw [ha', hb']
+    · subst ha'; exact absurd hab.symm (h.1 b hb')
+    · subst hb'; exact absurd hab (h.1 a ha')
+    · exact ih h.2 a ha' b hb' hab
+
+/-- **C11, compile stage.**  For a program whose procedure names are distinct (any other program is
+    rejected with `RedeclaredSymbolError`), everything the front half of the compiler produces -
+    intermediate code, data, frames, the lowered and the optimised directive lists, or the
+    diagnostic - is the same for any two contents of the uninitialised `Symbol::stackOffset`s. -/
+theorem stagesJ_indep (j1 j2 : Int) (P : X.Program) (hnd : (P.procs.map (·.name)).Nodup) :
+    ERel (fun s1 s2 => ORel s1.cg s2.cg ∧ s1.lowered = s2.lowered ∧ s1.optimised = s2.optimised)
+      (stagesJ j1 P) (stagesJ j2 P) := by
+  unfold stagesJ
+  refine (createSymbols_rel j1 j2 P).bind (fun t1 t2 ⟨hT, hI⟩ => ?_)
+  rw [constProp_rel hT P]
+  cases hcp : constProp t2 P with
+  | error e => simp only [bind, Except.bind, ERel]
+  | ok A =>
+    simp only [bind, Except.bind]
+    have hlink : ∀ p ∈ (optimise A).procs, ∀ ns, (∃ q ∈ P.procs, q.name = p.name ∧ ns = procNames q) →
+        ns = p.formals.map X.Formal.name ++ p.locals.map ADecl.name := by
+      intro p' hp' ns ⟨q, hq, hqn, hns⟩
+      simp only [optimise, List.mem_map] at hp'
+      obtain ⟨p'', hp'', rfl⟩ := hp'
+      unfold constProp at hcp
+      simp only [bind, Except.bind] at hcp
+      split at hcp
+      · simp at hcp
+      · rename_i v hv
+        obtain ⟨globals, st⟩ := v
+        simp only at hcp
+        split at hcp
+        · simp at hcp
+        · rename_i procs hprocs
+          simp only [pure, Except.pure, Except.ok.injEq] at hcp
+          subst hcp
+          obtain ⟨p, hp, h1, h2, h3⟩ := cpProcs_sig _ _ _ _ _ hprocs p'' hp''
+          have hqp : q = p := nodup_map_inj (fun x : X.Proc => x.name) P.procs hnd q hq p hp (by
+            simp only [optProc] at hqn
+            rw [hqn, h1])
+          subst hqp
+          rw [hns]
+          simp only [procNames, optProc, h2, List.map_map]
+          congr 1
+          rw [← h3]
+          apply List.map_congr_left
+          intro d _
+          exact (optDecl_name d).symm
+    have hcg := codeGen_rel t1 t2 (optimise A) hT hI hlink
+    revert hcg
+    cases codeGen t1 (optimise A) <;> cases codeGen t2 (optimise A) <;> simp only [ERel, pure, Except.pure] <;> intro hcg
+    · exact hcg
+    · exact hcg
+    · exact hcg
+    · exact ⟨hcg, lower_rel _ _ hcg, by rw [lower_rel _ _ hcg]⟩
+
+theorem compile_eq_compileJ (P : X.Program) : compile P = compileJ 0 P := by
+  unfold compile compileDirs compileJ stages
+  cases stagesJ 0 P <;> rfl
+
+/-- **C11, compile stage, end to end**: the assembled image (or the diagnostic) does not depend on
+    the content of the uninitialised `Symbol::stackOffset`s. -/
+theorem compileJ_indep (j1 j2 : Int) (P : X.Program) (hnd : (P.procs.map (·.name)).Nodup) :
+    compileJ j1 P = compileJ j2 P := by
+  have h := stagesJ_indep j1 j2 P hnd
+  unfold compileJ
+  revert h
+  cases stagesJ j1 P <;> cases stagesJ j2 P <;> simp only [ERel] <;> intro h
+  · rw [h]
+  · exact h.elim
+  · exact h.elim
+  · simp only [bind, Except.bind]
+    rw [h.2.2]
+
+theorem compileJ_eq_compile (j : Int) (P : X.Program) (hnd : (P.procs.map (·.name)).Nodup) :
+    compileJ j P = compile P := by
+  rw [compile_eq_compileJ]; exact compileJ_indep j 0 P hnd
 
 end Hex.Xcmp
